@@ -304,9 +304,67 @@ def directed_constant_transforms(ctx):
     ctx.sig("directed", "constant_transforms")
 
 
+ORDER_SRC = """
+from spec_classes import Attr, spec_class
+
+@spec_class(bootstrap={boot})
+class Inner:
+    a: int = 1
+    d: int = Attr(default=10, invalidated_by=["a"])
+    e: int = Attr(default=100, invalidated_by=["d"])
+
+@spec_class(bootstrap={boot})
+class Outer:
+    inner: Inner = Inner()
+"""
+
+
+def directed_multi_change_order(ctx):
+    """update/transform (and the nested update_<a>/transform_<a> keyword forms) apply their changes one after the other in
+    keyword order, each as the single-attribute helper would: a transform named after an attribute that an earlier change
+    invalidated is handed the re-defaulted value, not the stale one. Judged against the composition of single-attribute
+    helpers (themselves judged by the model) on a chain a -> d -> e of invalidated_by attributes holding non-default values."""
+    inc = lambda v: v + 1  # noqa: E731
+    for boot in (True, False):
+        ns = cg.exec_module(ORDER_SRC.format(boot=boot), prefix="verif_c05o").__dict__
+        Inner, Outer = ns["Inner"], ns["Outer"]
+        view = lambda r: (r.a, r.d, r.e)  # noqa: E731
+        import itertools
+        for names in [p for k in (2, 3) for p in itertools.permutations(("a", "d", "e"), k)]:
+            for ip in (False, True):
+                for kind in ("transform", "update"):
+                    for nested in (False, True):
+                        ctx.count("relations_judged")
+                        ctx.count("multi_change_order_cases")
+                        kw = {n: (inc if kind == "transform" else {"a": 2, "d": 7, "e": 70}[n]) for n in names}
+                        base = Inner(a=1, d=5, e=50)
+                        want_obj = Inner(a=1, d=5, e=50)
+                        for n in names:
+                            want_obj = getattr(want_obj, ("transform_" if kind == "transform" else "with_") + n)(kw[n])
+                        want = view(want_obj)
+                        try:
+                            if nested:
+                                o = Outer(inner=base)
+                                r = getattr(o, kind + "_inner")(_inplace=ip, **kw)
+                                got = view(r.inner)
+                                untouched = ip or view(o.inner) == (1, 5, 50)
+                            else:
+                                r = getattr(base, kind)(_inplace=ip, **kw)
+                                got = view(r)
+                                untouched = ip or view(base) == (1, 5, 50)
+                        except Exception as e:
+                            got, untouched = f"{type(e).__name__}: {e}", True
+                        label = f"{'Outer(inner=I).' + kind + '_inner' if nested else 'I.' + kind}({', '.join(n + '=' + ('inc' if kind == 'transform' else str(kw[n])) for n in names)}, _inplace={ip}) with I = Inner(a=1, d=5, e=50), d invalidated_by a, e invalidated_by d"
+                        if got != want or not untouched:
+                            ctx.violation("model_state", f"[directed] {label}: state (a, d, e) = {got}, the single-attribute helpers applied in that order give {want}" + ("" if untouched else "; the receiver changed"),
+                                          features={"rel": "M", "hkind": kind + ("_attr" if nested else ""), "form": "multi_change_order", "inplace": ip, "lazy": not boot}, case=["multi_change_order", kind, nested, list(names), ip, boot])
+    ctx.sig("directed", "multi_change_order")
+
+
 def run(ctx, params):
     if params.get("directed"):
-        return directed_constant_transforms(ctx)
+        directed_constant_transforms(ctx)
+        return directed_multi_change_order(ctx)
     rng = ctx.rng
     for ci in range(params["cases"]):
         decl = cg.gen_module(rng, {"frozen": False})
